@@ -7,8 +7,10 @@
 (*   group  <<"grp", ol, oc, cl, cc, items, tail>>  tail = <<>> | <<form>>   *)
 (*          (ol,oc) position of "(" and (cl,cc) position after ")"           *)
 (* Conventions of the language (not of the implementation): a bareword ends  *)
-(* at white space, and inside a list also at ")"; a quoted token runs to the *)
-(* unescaped closing quote and may span lines; ";" starts a comment to the   *)
+(* at white space, and inside a list also at ")" (except that the character  *)
+(* right after a leading "#" always belongs to the word); a quoted token     *)
+(* runs to the unescaped closing quote and may span lines; ";" starts a       *)
+(* comment to the                                                              *)
 (* end of the line; inside a list a lone "." introduces the tail.            *)
 (* Texts outside the regular fragment (#( structured lists, stray dots or    *)
 (* parentheses, unterminated tokens) read as <<"bad">>.                      *)
@@ -53,6 +55,10 @@ DForm(T, i0, p0, inlist) ==
        IF e[1] = 0 THEN Bad ELSE <<"ok", <<"tok", p[1], p[2], e[2][1], e[2][2]>>, e[1], e[2]>>
   ELSE IF T[i] = 35 /\ i < Len(T) /\ T[i + 1] = 40 THEN Bad          \* #( structured list: outside the regular fragment
   ELSE IF inlist /\ T[i] = 46 THEN <<"dot", i, p>>
+  ELSE IF T[i] = 35 /\ i < Len(T) /\ ~IsWs(T[i + 1]) THEN
+       \* "#" takes the character after it into the word whatever it is -- even ")" -- (#name spells an operator)
+       LET p2 == Adv(T[i + 1], Adv(35, p))
+           e == WordEnd(T, i + 2, p2, inlist) IN <<"ok", <<"tok", p[1], p[2], e[2][1], e[2][2]>>, e[1], e[2]>>
   ELSE LET e == WordEnd(T, i, p, inlist) IN <<"ok", <<"tok", p[1], p[2], e[2][1], e[2][2]>>, e[1], e[2]>>
 
 \* items of a list after its "(" (at position open); afterdot: the tail has been read
